@@ -21,7 +21,10 @@ package test
 //@   ensures  nn:   forall i in [0, len(r)): !isnil(r[i])
 //@   replay kafka
 //@   // every flow message is built with the message's export time, sequence number, observation domain and exporter address
+//@   // one flow message object per record: no two entries are views of the same message object
+//@   ensures  distinct: forall i in [0, len(r)): forall j in [0, len(r)): i != j ==> r[i].(*protobuf.FlowType1) != r[j].(*protobuf.FlowType1)
 //@   callpre (*FlowType1).ProtoReflect hdr: x.TimeReceived == msg.exportTime && x.SequenceNumber == msg.seqNumber && x.ObsDomainID == msg.obsDomainID && x.ExportAddress == msg.exportAddress
+//@   loop 1 invariant distinct: (forall i in [0, $i): forall j in [0, $i): i != j ==> flowMsgs[i].(*protobuf.FlowType1) != flowMsgs[j].(*protobuf.FlowType1)) && (forall i in [0, $i): allocated(flowMsgs[i].(*protobuf.FlowType1)))
 //@   loop 1 invariant cnt: 0 <= $i && $i <= len(records) && len(flowMsgs) == len(records) && fresh(flowMsgs) && records == msg.set.(*entities.set).records
 //@   loop 1 invariant nn:  forall i in [0, $i): !isnil(flowMsgs[i])
 
@@ -38,7 +41,10 @@ package test
 //@   ensures  nn:   forall i in [0, len(r)): !isnil(r[i])
 //@   replay kafka
 //@   // every flow message is built with the message's export time, sequence number, observation domain and exporter address
+//@   // one flow message object per record: no two entries are views of the same message object
+//@   ensures  distinct: forall i in [0, len(r)): forall j in [0, len(r)): i != j ==> r[i].(*protobuf.FlowType2) != r[j].(*protobuf.FlowType2)
 //@   callpre (*FlowType2).ProtoReflect hdr: x.TimeReceived == msg.exportTime && x.SequenceNumber == msg.seqNumber && x.ObsDomainID == msg.obsDomainID && x.ExportAddress == msg.exportAddress
+//@   loop 1 invariant distinct: (forall i in [0, $i): forall j in [0, $i): i != j ==> flowMsgs[i].(*protobuf.FlowType2) != flowMsgs[j].(*protobuf.FlowType2)) && (forall i in [0, $i): allocated(flowMsgs[i].(*protobuf.FlowType2)))
 //@   loop 1 invariant cnt: 0 <= $i && $i <= len(records) && len(flowMsgs) == len(records) && fresh(flowMsgs) && records == msg.set.(*entities.set).records
 //@   loop 1 invariant nn:  forall i in [0, $i): !isnil(flowMsgs[i])
 
